@@ -18,7 +18,14 @@ Suites
                undone, write_model/read_model, zip)
 Known defects of the pinned tree: triggers are computed by harness/c10model.py (a mirror of the ideal
 model) and such histories are dropped (counted in distribution.filtered); witnesses in corpus/C10/finding_*.json
-are replayed by every run."""
+are replayed by every run.  Recorded and avoided now: dangling_target (a reference whose corresponding object is
+created LATER is not re-bound).  Repaired in /repo and generated (corpus/fixed/C10_*.py, regress histories
+corpus/C10/case_<key>.json): stale_mode, relative_change_unchecked, dangling_target_overwrite,
+dyn_derived_nonrelative, suffix_root, stale_outer_root.
+Existence of the corresponding object is a precondition PER BINDING: a derived relative binding whose corresponding
+object does not exist must be a null object in the library (mode, derived, is_relative as the mirror says; checked
+in Python) and is left out of the Coq comparison; ItemSpaces are observed for trees without such a binding; an edit
+that deletes the object a binding denotes (remove_bases taking derived cells away) ends the history."""
 import os, json, glob, collections, itertools
 import fw
 import c10model as MM
@@ -30,10 +37,12 @@ TRUSTED = ["the C3 order (space.bases / SpaceGraph.get_mro) is an INPUT of the m
            "(C3 itself is property C03)",
            "harness: drivers/relref.py (observation through ReferenceProxy / attribute access / fullname), c10model.py "
            "(generator-side mirror that decides which histories avoid recorded defects)"]
-ASSUMPTIONS = ["histories avoid the triggers of the recorded defects suffix_root stale_outer_root stale_mode "
-               "relative_change_unchecked dangling_target dyn_derived_nonrelative "
-               "and half-way failures of add_bases/remove_bases/del (C11)",
-               "existence of the corresponding object in the deriving space is a precondition (generator), not modelled in Coq"]
+ASSUMPTIONS = ["histories avoid the trigger of the recorded defect dangling_target (a binding whose corresponding object is "
+               "created later is not re-bound) and half-way failures of add_bases/remove_bases/del (C11)",
+               "existence of the corresponding object in the deriving space is a precondition (generator), not modelled in Coq: "
+               "a derived relative binding without corresponding object must be a null object (checked in Python, left out of the "
+               "Coq comparison); ItemSpaces are observed for trees without such bindings; histories end at an edit that deletes "
+               "the object a binding denotes"]
 REQ = ["RelRef.Model"]
 MODE_C = {"auto": "Auto", "relative": "Relative", "absolute": "Absolute"}
 
@@ -76,7 +85,7 @@ NAMES = ["A", "B", "C", "S", "S2", "x"]
 
 
 def gen_getrel(rng, n):
-    cases, filt = [], 0
+    cases = []
     while len(cases) < n:
         nodes = set()
         for _ in range(rng.randint(2, 7)):
@@ -117,18 +126,16 @@ def gen_getrel(rng, n):
                 value = rng.choice(nodes) + ((rng.choice(["foo", "bar"]),) if rng.random() < 0.5 else ())
             else:
                 value = ()
-            if sub == bas or MM.is_suffix_pair(sub, bas):      # defect suffix_root
-                filt += 1
-                continue
+            # suffix_root is repaired in /repo: suffix pairs (X.C / C) are generated
             cases.append({"kind": "getrel", "nodes": [".".join(x) for x in nodes],
                           "bases": {".".join(k): [".".join(b) for b in v] for k, v in bases.items()},
                           "sub": ".".join(sub), "bas": ".".join(bas), "value": ".".join(value)})
-    return cases[:n], filt
+    return cases[:n]
 
 
 def suite_getrel(tier, rng, out):
     n = 500 if tier == "quick" else 8000
-    cases, filt = gen_getrel(rng, n)
+    cases = gen_getrel(rng, n)
     res = fw.run_driver("relref", cases)
     terms, kinds = [], collections.Counter()
     for c, r in zip(cases, res):
@@ -157,7 +164,7 @@ def suite_getrel(tier, rng, out):
     out.traces_validated += len(cases) - len(bad)
     out.distinct_nontrivial += len({(json.dumps(c["bases"], sort_keys=True), c["sub"], c["bas"], c["value"])
                                     for c, r in zip(cases, res) if r["res"][0] == "some"})
-    out.distribution["getrel"] = {"cases": len(cases), "result": dict(kinds), "filtered_suffix_root": filt}
+    out.distribution["getrel"] = {"cases": len(cases), "result": dict(kinds)}
     out.samples.append({k: cases[0][k] for k in ("bases", "sub", "bas", "value")})
 
 
@@ -439,13 +446,15 @@ def prepare(raw, filt, tag):
                 debris = debris or scope_err
                 roots.append(list(root))
                 dynexp.append({"root": list(root), "ok": not scope_err, "entries": [[list(q), n, list(e)] for q, n, e in entries]})
+            dang = [[list(k_[0]), k_[1], list(static_to_bind([k_[0], k_[1], b[0] == "Der", b[1], ["deleted"], b[3] if b[0] == "Der" else None]))]
+                    for k_, b in sorted(st.dangling().items())]
             key = json.dumps([sorted((list(k_), [list(b) for b in v]) for k_, v in st.bases.items()),
                               sorted((list(k_[0]), k_[1], v[0], list(v[1])) for k_, v in st.defs.items()),
                               sorted((list(k_), sorted(v)) for k_, v in st.cells.items()), roots])
             if ops and ops[-1][0] == "obs":
                 continue
             ops.append(["obs", roots])
-            meta.append({"dyn": dynexp, "key": key})
+            meta.append({"dyn": dynexp, "key": key, "dangling": dang})
             continue
         if k == "roundtrip":
             trig = MM.roundtrip_triggers(st)
@@ -554,8 +563,18 @@ def evaluate_history(case, r):
                 pf.append("obs@%d: %s" % (i, x))
             seen = {(tuple(e[0]), e[1]): static_to_bind(e) for e in o["static"]}
             obs_terms = []
+            # existence of the corresponding object is a precondition of the model, per binding: where it does not
+            # exist the library must hold a null object (same mode, derived, is_relative); not compared in Coq
+            dang = {(tuple(sp_), n): tuple(b) for sp_, n, b in mt.get("dangling", [])}
+            for k_, b in dang.items():
+                got = seen.get(k_, ("NoRef",))
+                if tuple(got) != b:
+                    pf.append("obs@%d: %s.%s has no corresponding object: expected a null object %r, observed %r"
+                              % (i, ".".join(k_[0]), k_[1], b, tuple(got)))
             for sp in sorted(allspaces):
                 for n in case["refnames"]:
+                    if (tuple(sp.split(".")), n) in dang:
+                        continue
                     b = seen.get((tuple(sp.split(".")), n), ("NoRef",))
                     obs_terms.append(ctuple([cpath(sp.split(".")), cstr(n), cbind(b)]))
             dyn_terms = []
@@ -601,6 +620,8 @@ def features(case):
             f.add("rejected")
         for d in mt.get("dyn", []):
             f.add("item" if d["ok"] else "item_scope_error")
+        if mt.get("dangling"):
+            f.add("dangling")
     return f
 
 
